@@ -75,6 +75,16 @@ REQUESTS = [
      [[], ["u1.name"]], None),
     ("skip_generation_dedup", '{ me { id ... @defer(label: "A") { name nn ... @defer(label: "B") { name ... @defer(label: "C") { nn tags } } } } }', {"B": "A", "C": "B"},
      [[], ["u1.nn", "u1.name"], ["u1.nn", "u1.tags:items"]], None),
+    # a stream created next to a failing non-null sibling (sync fault menu: nn_null / nn_raise; async: the :err site)
+    ("stream_next_to_failing", '{ me { friends @stream(initialCount: 1, label: "s") { id } nn } }', {},
+     [["u1.friends:agen"], ["u1.friends:aiter"], ["u1.friends:agen", "u1.nn:err"], ["u1.friends:items"]], None),
+    ("stream_next_to_failing_deferred", '{ me { id ... @defer(label: "d") { friends @stream(initialCount: 1, label: "s") { id } nn } } }', {"s": "d"},
+     [["u1.friends:agen"], ["u1.friends:aiter", "u1.nn:err"]], None),
+    ("stream_next_to_root_failure", '{ me { friends @stream(initialCount: 1, label: "s") { id } } boom }', {},
+     [["u1.friends:agen"], ["u1.friends:aiter"]], None),
+    # a stream produced by a task shared by two deferred fragments that both fail (through different fields)
+    ("shared_stream_both_fail", '{ me { ... @defer(label: "A") { friends @stream(initialCount: 1, label: "s") { id } a: nn } ... @defer(label: "B") { friends @stream(initialCount: 1, label: "s") { id } b: nn } } }', {},
+     [["u1.friends:agen", "u1.nn:err"], ["u1.friends:aiter", "u1.nn:err"], ["u1.nn:err"]], None),
     ("deep", '{ me { best { ... @defer(label: "a") { name friends @stream(label: "s") { id ... @defer(label: "c") { nn } } } } } }', {"s": "a"},
      [["u2.name", "u3.nn"], ["u2.friends:agen"]], None),
 ]
